@@ -367,8 +367,47 @@ class Run:
         self.crosscheck.append(dict(solver="cvc5 (python wheel)", sampled_queries=len(self.xc_samples), agree=agree, disagree=disagree,
                                     no_information=noinfo, no_information_reasons=reasons[:4], per_query_limit_ms=int(tl), wall_s=round(time.time() - t0, 2)))
 
+    # ---- last resort when the solver-based run could not decide
+    def run_fallback_scenarios(self):
+        """Only when the run is inconclusive (the harness left the modelled subset, a worker crashed, a query stayed
+        undecided) and found no violation: replay the stored corner scenarios of this property (symx/scenarios.json -
+        solver counterexamples of earlier seeded changes, all passing on the pinned tree) on the real library.  A
+        scenario that fails is a reproduced violation; if none fails the run stays inconclusive (exit 2).  This never
+        turns an undecided run into a pass."""
+        path = os.path.join(VERIF, "symx", "scenarios.json")
+        if not os.path.exists(path):
+            return
+        with open(path) as f:
+            scen = json.load(f).get(self.pid, [])
+        ran = failed = 0
+        t0 = time.time()
+        for i, sc in enumerate(scen):
+            if failed >= 2 or time.time() - t0 > 300:
+                break
+            src = (f"import sys, json\nfrom symx.concrete import {sc['driver']}\n"
+                   f"sys.exit({sc['driver']}.{sc['entry']}(json.loads({json.dumps(json.dumps(sc['params']))})))\n")
+            rp = self.replay_path(f"fallback-scenario-{i}")
+            with open(rp, "w") as f:
+                f.write(src)
+            try:
+                rc, out = self.run_replay(rp, timeout=120)
+            except Exception:  # noqa: BLE001
+                continue
+            ran += 1
+            if rc == 1:
+                failed += 1
+                key = f"fallback-scenario-{i}"
+                self.violations.append((key, "stored corner scenario fails on the real library (run was otherwise inconclusive)", rp))
+                self.obligation(key, "violated", desc="stored corner scenario fails on the real library", model=sc["params"], replay=rp, output=out[-400:], found_by="fallback replay")
+        self.extra["fallback_scenarios"] = dict(ran=ran, failed=failed, reason="run inconclusive")
+
     # ---- finish
     def finish(self):
+        if self.inconclusive and not self.violations:
+            try:
+                self.run_fallback_scenarios()
+            except Exception as e:  # noqa: BLE001
+                self.inconclusive.append(f"fallback scenarios crashed: {type(e).__name__}: {e}")
         try:
             self.run_crosscheck()
         except Exception as e:  # noqa: BLE001
